@@ -1545,6 +1545,9 @@ def user_sizes_not_narrowed(run, fns, rule='R11', inst='user-size-not-narrowed')
             run.touch(g)
             mm = _minmax(g, e0)
             ok = bool(mm) and mm[0] == 'min'
+            if not ok and e0['k'] == 'ref' and e0.get('dk') == 'local':
+                ds_ = q.local_defs(g, e0['did'])        # `size_t const n = std::min(a.size(), b.size()); ... int(n)`
+                ok = len(ds_) == 1 and bool(_minmax(g, ds_[0][1])) and _minmax(g, ds_[0][1])[0] == 'min'
             if not ok:
                 # ... or already bounded by a dominating comparison with a constant (the early return of the size check)
                 r_ = q.render(g, e0)
